@@ -22,6 +22,10 @@ NOTES = {
     "C25": "**first missed**: sequences were too short and lacked a value between two others within the deadband; value-only drift sequences were added",
     "C35b": "**first missed**: the engine expired a request by moving its deadline into the past and could not see what the transport's timer was armed for; timeout classes and a hook reading the real `next_timeout` were added",
     "C26b": "caught by the fine-clock generation that was added for it (one model unit = 0.2 ms): the coarse clock never produced a step of a fraction of a millisecond",
+    "C34b": "**first missed**: the model only deleted nodes WITH their references; `DelNode(n, tr)` now has both flags (references left behind, nodes re-created under them)",
+    "C40b": "**first missed**: no behaviour had two subscriptions with retained notifications and then deleted one of them; a scripted eviction family was added",
+    "C10b": "**first missed**: the harness's intermediate chunks carried no decodable message, so N intermediates + a final chunk failed either way; they are now the pieces of one real request, and the monitor got the clauses `message-beyond-the-negotiated-limits-was-answered` / `connection-survives-…`",
+    "C24b": "**first missed**: the second overflow happened in the step that also drained the queue, where the monitor did not look; it now requires the mark in the delivered values of a queue that overflowed",
     "C22b": "",
     "C21b": "",
     "C12b": "",
